@@ -24,8 +24,10 @@ LZ = "src/lz/lz_encoder.rs"
 SHAPES = [
     # (lean name, file, regex on the whitespace-normalised, comment-free source, expected number of matches, doc)
     ("moveMask", LZ, r"const MOVE_BLOCK_ALIGN_MASK: i32 = !\(MOVE_BLOCK_ALIGN - 1\);", 1, "mask = !(align - 1)"),
-    ("moveOffsetRoundsDown", LZ, r"let move_offset = \(self\.read_pos \+ 1 - self\.keep_size_before as i32\) & MOVE_BLOCK_ALIGN_MASK;", 1,
-     "move_offset = (read_pos + 1 - keep_size_before) & MASK (rounds DOWN: at least keep_size_before bytes of history stay)"),
+    ("moveOffsetRoundsDown", LZ, r"let move_offset = \(self\.read_pos \+ 1 - self\.keep_size_before as i32 - self\.pending_size as i32\) & MOVE_BLOCK_ALIGN_MASK;", 1,
+     "move_offset = (read_pos + 1 - keep_size_before - pending_size) & MASK (rounds DOWN: at least keep_size_before bytes of history stay before the FIRST PENDING byte; EncWindow.moveOffset)"),
+    ("moveOffsetNotPinned", LZ, r"let move_offset = \(self\.read_pos \+ 1 - self\.keep_size_before as i32\) & MOVE_BLOCK_ALIGN_MASK;", 0,
+     "the statement before the repair (EncWindow.moveOffsetPinned: forgets the pending bytes, witness pinned_move_loses_pending_history) is gone"),
     ("moveSize", LZ, r"let move_size = self\.write_pos - move_offset;", 1, "everything from the offset to write_pos is kept"),
     ("moveCopy", LZ, r"self\.buf\.copy_within\(offset\.\.offset \+ move_size, 0\);", 1, "copied to the start of the buffer"),
     ("moveShiftsPositions", LZ, r"self\.read_pos -= move_offset; self\.read_limit -= move_offset; self\.write_pos -= move_offset;", 1, "all three positions shift by the offset"),
